@@ -49,6 +49,7 @@ type Facts struct {
 	LoopIterations     int      // backward jumps taken
 	InstsExecuted      int      //
 	ParamsRead         []string // sorted
+	AlignedAccesses    []Load   // memory operands of instructions that fault unless 16-byte aligned (MOVOA/MOVAPS, SSE arithmetic with a memory source)
 }
 
 // Analysis is the result of Analyse.
@@ -459,6 +460,16 @@ func (m *machine) access(in Inst, o Operand) (base string, off int64, ok, taint 
 	return "", 0, false, v.taint()
 }
 
+// noteAligned records a memory operand that must be 16-byte aligned.
+func (m *machine) noteAligned(in Inst, o Operand) {
+	v := m.ea(o)
+	l := Load{Line: in.Line, Width: 16}
+	if v.kind == gPtr {
+		l.Base, l.Off = v.base, v.off
+	}
+	m.facts.AlignedAccesses = append(m.facts.AlignedAccesses, l)
+}
+
 // load reads width (4, 8 or 16) bytes and returns width/4 lanes.
 func (m *machine) load(in Inst, o Operand, width int) ([]*lexpr, error) {
 	if m.stored {
@@ -696,9 +707,16 @@ func (m *machine) step(pc int, ins Inst) (next int, stop string, err error) {
 	case oneOf(movOps, op):
 		err = m.mov(ins)
 
-	case oneOf(xmovOps, op): // 128-bit moves; alignment is not modelled
+	case oneOf(xmovOps, op): // 128-bit moves
 		if err = need(2); err != nil {
 			break
+		}
+		if op != "MOVOU" && op != "MOVUPS" {
+			for _, o := range A {
+				if o.Kind == KindMem {
+					m.noteAligned(ins, o)
+				}
+			}
 		}
 		var v [4]*lexpr
 		switch {
@@ -728,6 +746,9 @@ func (m *machine) step(pc int, ins Inst) (next int, stop string, err error) {
 		} else if same && (op == "PCMPEQL" || op == "PCMPEQQ") {
 			m.xmm[A[1].Reg] = [4]*lexpr{lOnes, lOnes, lOnes, lOnes} // all-ones idiom
 			break
+		}
+		if A[0].Kind == KindMem {
+			m.noteAligned(ins, A[0]) // legacy SSE arithmetic requires an aligned memory source
 		}
 		var s [4]*lexpr
 		if s, err = m.xsrc(ins, A[0]); err != nil {
